@@ -13,7 +13,7 @@ def run(c):
     c.run_m('h_c10_prec', expect_checks=(1010,), expect_cover=(1010,), bounds={'a op1 b op2 c': 'op in {+,-,*,%}, a any i64, b, c in 1..999, with and without parentheses'})
     c.run_m('h_c10_prec3', expect_checks=(1011,), expect_cover=(1011,), bounds={'a op1 b op2 c op3 d': 'op in {+,-,*}, operands any i64'})
     c.run_m('h_c10_tree', expect_checks=(1060,), expect_cover=(1060,), bounds={'a op1 b op2 c': 'every pair of the 13 binary operator spellings (169), grouping read off the parsed tree'})
-    c.run_m('h_c10_cache2', expect_checks=(1035,), expect_cover=(1035,), bounds={'texts': '5 (incl. ?= on a missing map key / variable), store changed between the evaluations'})
+    c.run_m('h_c10_cache2', expect_checks=(1035,), expect_cover=(1035,), bounds={'texts': '6 (incl. ?= on a missing map key / variable, an array literal whose stored value is modified between the evaluations), store changed between the evaluations'})
     c.run_m('h_c10_mixed', expect_checks=(1020,), expect_cover=(1020,), bounds={'catalogue': '38 concrete expressions'})
     c.run_m('h_c10_cache', expect_checks=(1030, 1031, 1032), expect_cover=(1030,), bounds={'a': 'any i64', 'texts': 4, 'id-less sources': 'two different texts in a row'})
     c.run_m('h_c10_assign', expect_checks=(1040,), expect_cover=(1040,), bounds={'value': 'any i64'})
